@@ -223,6 +223,18 @@ def do_data(ctx, rng, comps, meta, mexp, content, kind, sinfo_tuple=None, target
         lp.append('unexpected-signature')
     for pr in lp:
         ctx.report(f'data-parse-field:{pr}', f'parse_data of produced wire disagrees with input: {pr}', w)
+    if not lp and mexp['has_meta'] and ctx.evaluations % 3 == 0:
+        # make -> parse -> make again with what parsing returned (a repository, a proxy, a re-signer): the MetaInfo OBJECT that
+        # parse_data handed out is a MetaInfo like any other - absent fields stay absent
+        try:
+            remade = rc.strict_data(bytes(make_data([bytes(c) for c in name], mi, None if cont is None else bytes(cont))))
+            ctx.event('data-made-again-from-the-parsed-metainfo')
+            if (remade["content_type"], remade["freshness"], bl(remade["final_block"])) != (mexp['content_type'], mexp['freshness'], bl(mexp['final_block'])):
+                ctx.report('data-ref-field:metainfo:remade-from-parsed', 'a Data made again with the MetaInfo object that parse_data returned carries another MetaInfo', w)
+        except (rc.Reject, KeyError) as e:
+            ctx.report(f'data-wire-malformed:remade-from-parsed', f'{e!r}', w)
+        except Exception as e:   # noqa
+            ctx.report(f'make-data-raises:{type(e).__name__}@{raising_site(e)[0]}:remade-from-parsed', f'{e!r}', w)
     mask = (mexp['has_meta'], mexp['content_type'] is not None, mexp['freshness'] is not None, mexp['final_block'] is not None)
     ctx.case(('D', kind, len_class(len(wire)), len_class(len(content or b'')), mask, sinfo.get('reserve'), sinfo.get('write'), target),
              sample=w if ctx.evaluations % 997 == 5 else None,
